@@ -160,10 +160,12 @@ var contentAlphabet = map[string]func(w *worker) string{
 // thorough tier adds environment states and a repeated call).
 func variantsFor(tool string, thorough bool) []string {
 	t, known := refByName[tool]
-	vs := []string{"minimal"}
+	// "twice": the same call two times in one session (one audit record per call, also for denied calls);
+	// "env:no-config-path": the server is constructed without a config path
+	vs := []string{"minimal", "twice", "env:no-config-path"}
 	if thorough {
-		// environment states and a repeated call in one session (same gate, other code paths / error paths)
-		vs = append(vs, "env:no-db", "env:bad-config", "env:no-config", "env:memory-backend", "twice")
+		// further environment states (same gate, other code paths / error paths)
+		vs = append(vs, "env:no-db", "env:bad-config", "env:no-config", "env:memory-backend")
 	}
 	if !known {
 		return append(vs, "no-arguments")
@@ -178,7 +180,10 @@ func variantsFor(tool string, thorough bool) []string {
 		vs = append(vs, "no-reason")
 	}
 	if toolsWithPath[tool] {
-		vs = append(vs, "path-own", "path-foreign-existing", "path-foreign-new", "path-suffix", "path-dir", "path-dotdot", "path-relative", "path-alias")
+		vs = append(vs, "path-own", "path-foreign-existing", "path-foreign-new", "path-suffix", "path-dir", "path-dotdot", "path-relative", "path-alias", "path-newdir")
+		// no config path configured: nothing is on the allowlist, whatever the caller names
+		vs = append(vs, "nocfg:path-foreign-existing", "nocfg:path-foreign-new", "nocfg:path-newdir", "nocfg:path-relative",
+			"nocfg:path-dotdot", "nocfg:path-unconfigured-file")
 	}
 	if tool == "config_apply" {
 		for _, c := range []string{"valid", "valid-unhealthy", "parse-invalid", "compile-invalid", "garbage", "empty"} {
@@ -196,6 +201,7 @@ func variantsFor(tool string, thorough bool) []string {
 // buildArgs materialises a variant of the tool's minimal arguments.
 func buildArgs(w *worker, tool, variant string) (args map[string]any, omit bool, err error) {
 	args = minimalArgs(w, tool)
+	variant = strings.TrimPrefix(variant, "nocfg:")
 	switch {
 	case variant == "minimal", variant == "twice", strings.HasPrefix(variant, "env:"):
 	case variant == "no-arguments":
@@ -223,8 +229,10 @@ func buildArgs(w *worker, tool, variant string) (args map[string]any, omit bool,
 	case strings.HasPrefix(variant, "path-"):
 		args = cloneArgs(args)
 		switch variant {
-		case "path-own":
+		case "path-own", "path-unconfigured-file":
 			args["path"] = w.cfgPath
+		case "path-newdir":
+			args["path"] = w.dir + "/newdir/sub/Hookaidofile" // neither the file nor its directories exist
 		case "path-foreign-existing":
 			args["path"] = w.foreign
 		case "path-foreign-new":
@@ -347,6 +355,11 @@ func runCase(w *worker, spec caseSpec) *caseResult {
 			return cr
 		}
 	}
+	noCfg := spec.Variant == "env:no-config-path" || strings.HasPrefix(spec.Variant, "nocfg:")
+	configPath := w.cfgPath
+	if noCfg {
+		configPath = ""
+	}
 	w.rec.take()
 	repeat := 1
 	if spec.Variant == "twice" {
@@ -359,7 +372,7 @@ func runCase(w *worker, spec caseSpec) *caseResult {
 	}
 	cfgBefore, cfgBeforeErr := os.ReadFile(w.cfgPath)
 
-	res := w.runSession(spec.Cfg, spec.Tool, args, omit, repeat)
+	res := w.runSession(spec.Cfg, configPath, spec.Tool, args, omit, repeat)
 
 	// --- observations after the call
 	after, err := w.snapshot()
@@ -477,6 +490,10 @@ func runCase(w *worker, spec caseSpec) *caseResult {
 		switch name {
 		case "Hookaidofile":
 			effects = append(effects, "config-file")
+			if noCfg {
+				// the file exists in the directory but is not the configured path: there is no configured path
+				otherFiles = append(otherFiles, d)
+			}
 		case "hookaido.pid", "hookaido.pid.invoked":
 			effects = append(effects, "process:"+d)
 		default:
@@ -529,7 +546,16 @@ func runCase(w *worker, spec caseSpec) *caseResult {
 	// --- (C) confinement: nothing but the configured config file, the queue db and the process artefacts may
 	// change, and the config file only to content that parses and compiles
 	if len(otherFiles) > 0 {
-		fail("confine:"+spec.Tool+":"+spec.Variant, "files other than the configured config path were touched: %v (args=%s)", otherFiles, cr.ArgsJSON)
+		fail("confine:"+spec.Tool+":"+spec.Variant, "files other than the configured config path were touched: %v (configured config path %q, args=%s)", otherFiles, configPath, cr.ArgsJSON)
+	}
+	// a path that is not the configured one must not be served: no answer derived from the planted foreign file,
+	// no successful answer for the supplied path (the "./" alias of the configured file is left open)
+	if sp, ok := args["path"].(string); ok && sp != "" && sp != configPath && spec.Variant != "path-alias" {
+		if strings.Contains(res.CallText, foreignMarkerRoute) && !strings.Contains(cr.ArgsJSON, foreignMarkerRoute) || strings.Contains(res.CallText, foreignMarkerPort) {
+			fail("served-foreign:"+spec.Tool+":"+spec.Variant, "the answer carries content of the foreign file %s (configured config path %q)", sp, configPath)
+		} else if !cr.Refused && res.Structured != nil && res.Structured["path"] == sp {
+			fail("served-foreign:"+spec.Tool+":"+spec.Variant, "the call was answered for the non-configured path %s (configured config path %q)", sp, configPath)
+		}
 	}
 	if cfgChanged {
 		if cfgErr != nil {
@@ -721,7 +747,7 @@ func TestCheck(t *testing.T) {
 		r.Infra("reset: %v", err)
 		r.Finish()
 	}
-	full := w0.runSession(gateCfg{Role: "admin", RoleVia: "option", Mut: true, RT: true, Principal: principalName}, "config_parse", map[string]any{}, false, 1)
+	full := w0.runSession(gateCfg{Role: "admin", RoleVia: "option", Mut: true, RT: true, Principal: principalName}, w0.cfgPath, "config_parse", map[string]any{}, false, 1)
 	if full.ProtoErr != "" || full.ServeErr != "" {
 		r.Infra("fully enabled admin session failed: %s %s", full.ProtoErr, full.ServeErr)
 		r.Finish()
@@ -776,6 +802,10 @@ func TestCheck(t *testing.T) {
 			}
 		}
 		r.Set("config_content_alphabet", cls)
+		if !validConfig([]byte(foreignConfigText(fx.healthyAddr))) {
+			r.Infra("the planted foreign config does not compile on this tree (confinement probes would be vacuous)")
+			r.Finish()
+		}
 		if !validConfig([]byte(w0.baseCfg)) {
 			r.Infra("the fixture's base config does not compile on this tree")
 			r.Finish()
@@ -1034,7 +1064,7 @@ func TestCheck(t *testing.T) {
 	}
 	r.Set("workers", nw)
 	r.Set("cases_planned", len(cases))
-	r.Set("rule", "complete product: 31 documented tool names + 2 unknown names x role input {read, operate, admin, invalid 'root' via WithRole, invalid 'superuser' via Server.Role} x --enable-mutations {off,on} x --enable-runtime-control {off,on} x principal {set, empty} = 1320 table rows; every row is one Serve session (initialize, tools/list, tools/call with minimal valid arguments) on a fresh scratch directory (seeded SQLite queue db, config file, pid file of a harness child, foreign files) with side-effect probes; every row is repeated for every argument-shape variant of its tool (unknown key, no arguments, actor = / != principal in 4 spellings, missing reason, 8 path spellings, config_apply content{6} x mode{3}, management mode{2}); thorough adds 5 more unknown names (padded / upper-case spellings of real tools), 3 more invalid role inputs, 4 environment states (db missing, config unparsable, config missing, all routes on the memory backend = admin-proxy mode against a recording Admin API stand-in) and a repeated call in one session. A case is distinct by (tool, configuration, variant, reference verdict, observed outcome)")
+	r.Set("rule", "complete product: 31 documented tool names + 2 unknown names x role input {read, operate, admin, invalid 'root' via WithRole, invalid 'superuser' via Server.Role} x --enable-mutations {off,on} x --enable-runtime-control {off,on} x principal {set, empty} = 1320 table rows; every row is one Serve session (initialize, tools/list, tools/call with minimal valid arguments) on a fresh scratch directory (seeded SQLite queue db, config file, pid file of a harness child, foreign files) with side-effect probes; every row is repeated for every argument-shape variant of its tool (unknown key, no arguments, actor = / != principal in 4 spellings, missing reason, 9 path spellings, config_apply content{6} x mode{3}, management mode{2}); every row is also run twice in one session and on a server without configured config path (plus 6 path spellings there for the 8 path-taking tools: nothing may be written or created anywhere, no foreign content served); thorough adds 5 more unknown names (padded / upper-case spellings of real tools), 3 more invalid role inputs, 4 environment states (db missing, config unparsable, config missing, all routes on the memory backend = admin-proxy mode against a recording Admin API stand-in) . A case is distinct by (tool, configuration, variant, reference verdict, observed outcome)")
 	r.Assume("reference table transcribed from docs/mcp.md, internal/mcp/spec.md, DESIGN.md 'Access Model' (cross-checked against the tree's docs at run time); 'refused' = JSON-RPC error or result.isError")
 	r.Assume("invalid role strings: the statement does not say whether they mean 'read' (documented default) or 'nothing'; both are accepted for read-level tools as long as tools/list and tools/call agree; anything above read must be refused")
 	r.Assume("queue backend sqlite in the table; admin-proxy mode (memory backend) only as a thorough-tier environment variant against a recording stand-in that answers 200 to everything (postgres is the same code path, not run); process effects are observed on harness-owned children (fake run binary = this test binary, signal-recording sleeper); admin health is an in-process loopback listener")
